@@ -57,6 +57,9 @@ fn iccma_text(kind: &str) -> &'static str {
         "aOne" => "1",
         "aThree" => "1 2 3",
         "aNaN" => "a b",
+        // \u{1} stands for a byte that is not valid UTF-8 (0xE9, Latin-1 e-acute): replaced when the text is turned into bytes
+        "cmtBin" => "# g\u{1}n\u{1}r\u{1} par un outil",
+        "aBin" => "1 \u{1}2",
         _ => panic!("unknown iccma line kind {}", kind),
     }
 }
@@ -90,12 +93,14 @@ fn concretise(fmt: &str, kinds: &[String], variant: usize) -> String {
     for (i, k) in kinds.iter().enumerate() {
         let line = if fmt == "iccma" { iccma_text(k) } else { apx_text(k) };
         // surrounding / repeated spaces where the grammar allows them
-        let spaced = variant == 3 && !(fmt == "iccma" && (k == "cmt" || k == "empty"));
+        let spaced = variant == 3 && !(fmt == "iccma" && (k == "cmt" || k == "cmtBin" || k == "empty"));
         if variant == 4 {
             // long physical lines (around and above 64 KiB): same content, so same verdict
             let sizes = [65535usize, 65536, 65537, 70000, 131077, 8191, 8192, 8193];
             let sz = sizes[(i + kinds.len()) % sizes.len()];
-            if fmt == "iccma" && k == "cmt" {
+            if fmt == "iccma" && k == "cmtBin" {
+                t.push_str(line);
+            } else if fmt == "iccma" && k == "cmt" {
                 let mut c = String::from("# ");
                 while c.len() + 4 < sz {
                     c.push_str("filler ");
@@ -161,13 +166,18 @@ fn af_json<T: crustabri::utils::LabelType>(af: &AAFramework<T>, num: &dyn Fn(&T)
     (args, att, raw, ids_ok)
 }
 
+/// the bytes of a concretised file: the placeholder \u{1} becomes the byte 0xE9 (not valid UTF-8 on its own)
+pub fn file_bytes(text: &str) -> Vec<u8> {
+    text.bytes().map(|b| if b == 1 { 0xE9 } else { b }).collect()
+}
+
 fn read_event(fmt: &str, kinds: &[String], variant: usize) -> String {
-    let text = concretise(fmt, kinds, variant);
+    let text = file_bytes(&concretise(fmt, kinds, variant));
     let r = catch_unwind(AssertUnwindSafe(|| {
         if fmt == "iccma" {
-            read_iccma(text.as_bytes()).ok().map(|af| af_json(&af, &|l: &usize| *l))
+            read_iccma(&text).ok().map(|af| af_json(&af, &|l: &usize| *l))
         } else {
-            read_apx(text.as_bytes()).ok().map(|af| af_json(&af, &|l: &String| apx_label_num(l)))
+            read_apx(&text).ok().map(|af| af_json(&af, &|l: &String| apx_label_num(l)))
         }
     }));
     match r {
@@ -309,7 +319,7 @@ pub fn cmd_io(a: &Args) {
             let mut v = vec![read_event(fmt, kinds, 0)];
             let extra = 1 + (i + seed as usize) % 3;
             v.push(read_event(fmt, kinds, extra));
-            if i % 6 == 0 || (kinds.iter().any(|k| k == "cmt") && i % 2 == 0) {
+            if i % 6 == 0 || (kinds.iter().any(|k| k == "cmt" || k == "cmtBin") && i % 2 == 0) {
                 v.push(read_event(fmt, kinds, 4));
             }
             v
